@@ -15,7 +15,9 @@ def make_case(seed, t, nmax, precs="sd", drivers=("gssv",), force=None):
     n = f.get("n") or rng.choice([1, 2, 3, 4, 5, 6, 7, 8] + [rng.randint(9, nmax) for _ in range(12)])
     vmode = f.get("vmode") or rng.choice(["float", "float", "int", "pow2"])
     kind = f.get("kind")
-    M = G.random_matrix(rng, n, kind, vmode, cplx=prec in "cz")
+    if isinstance(kind, (list, tuple)):
+        kind = rng.choice(list(kind))
+    M = G.random_matrix(rng, n, kind, vmode, cplx=prec in "cz", dominant=bool(f.get("dominant")))
     if prec in "sc":
         G.round_single(M)
     nrhs = f.get("nrhs", rng.choice([0, 1, 1, 1, 2, 3]))
@@ -40,6 +42,8 @@ def make_case(seed, t, nmax, precs="sd", drivers=("gssv",), force=None):
         "u": f.get("u", rng.choice([1.0, 1.0, 0.5, 0.125, 0.0, round(rng.random(), 3)])),
         "perturb": f.get("perturb", rng.choice([0, 0, 1, 3])),
         "evlog": f.get("evlog", 0),
+        "fill": f.get("fill"),
+        "fact": f.get("fact", 0), "trans": f.get("trans", 0), "symm": f.get("symm", 0), "lwork": f.get("lwork", 0),
     }
     # tunables precondition (DESIGN §7-F8): a relaxed supernode may have up to `relax` columns, and every
     # size computed from maxsuper (work arrays, slot table) assumes relax <= maxsuper.
@@ -50,7 +54,8 @@ def make_case(seed, t, nmax, precs="sd", drivers=("gssv",), force=None):
 
 def script_for(cfg, M, rhs):
     single = cfg["prec"] in "sc"
-    s = "ienv %d %d %d %d %d -50 -50 -30\n" % (cfg["panel"], cfg["relax"], cfg["maxsuper"], cfg["rowblk"], cfg["colblk"])
+    fill = cfg.get("fill") or (-50, -50, -30)
+    s = "ienv %d %d %d %d %d %d %d %d\n" % ((cfg["panel"], cfg["relax"], cfg["maxsuper"], cfg["rowblk"], cfg["colblk"]) + tuple(fill))
     s += "perturb %d %d\n" % (cfg["perturb"], cfg["t"] + 1)
     if cfg.get("evlog"):
         s += "evlog 1 1\n"
@@ -61,7 +66,8 @@ def script_for(cfg, M, rhs):
         s += "gssv 0 0 %d\n" % cfg["nprocs"]
     else:
         # gssvx A B nprocs fact trans refact usepr u panel relax symm lwork   (DOFACT, NOTRANS)
-        s += "gssvx 0 0 %d 0 0 0 0 %s %d %d 0 0\n" % (cfg["nprocs"], float(cfg["u"]).hex(), cfg["panel"], cfg["relax"])
+        s += "gssvx 0 0 %d %d %d 0 0 %s %d %d %d %d\n" % (cfg["nprocs"], cfg.get("fact", 0), cfg.get("trans", 0), float(cfg["u"]).hex(),
+                                                       cfg["panel"], cfg["relax"], cfg.get("symm", 0), cfg.get("lwork", 0))
     s += "quit\n"
     return s
 
